@@ -215,7 +215,12 @@ claim("C11", "proof",
 
 claim("C12", "proof",
       "Partial: the floating-point environment lives in hardware state and Boost's rounding policies, which are observed, "
-      "not modelled from source.  Coq theorem: if every primitive of the table restores the environment then every call "
+      "not modelled from source - except for the class Interval, where the defects were: translate/gen_fpenv.py re-reads "
+      "interval.hpp on every run and lists, for every control-flow path through every operation, the Boost primitive calls, "
+      "fegetround saves and fesetround restores in execution order (Gen/IntervalEnv_gen.v); Conc/FpEnvOps.v proves that every "
+      "path of every operation returns with the rounding mode it was entered with, for ANY mode a leaky primitive (nth_root, "
+      "observed) may leave behind (C12_interval_ops_restore_mode; a return between the call and the restore, or a missing "
+      "restore, breaks it: C12_unbracketed_leaks, checked by mutation).  Coq theorem: if every primitive of the table restores the environment then every call "
       "tree (tapes, batches, renders, solver iterations, oracle nesting) and every history does.  The per-primitive table "
       "is validated exhaustively on every run: 26 opcodes x 10 evaluator entry kinds x input classes x 4 rounding modes "
       "and 13 entry points, comparing fegetround / MXCSR control bits / x87 control word before and after.",
